@@ -226,7 +226,8 @@ void harness(void)
   vp_snapshot_table(&snap0);
   vp_hang_allowed = true; /* timing is decided by H_stop / H_wait / H_poll */
 
-  VP_ASSERT(C14, reproc_destroy(NULL) == NULL, "destroy(NULL) does not return null");
+  reproc_t *dn = reproc_destroy(NULL);
+  VP_ASSERT(C14, dn == NULL, "destroy(NULL) does not return null");
   reproc_t *p = reproc_new();
   VP_ASSUME(p != NULL);
   VP_ASSERT(C05, vp_table_equals(&snap0), "new touches descriptors");
@@ -247,7 +248,8 @@ void harness(void)
     VP_ASSERT(C14, r0 == REPROC_EINVAL && p->status == STATUS_NOT_STARTED, "rejected options start the handle");
     one_call(p, true);
     VP_ASSERT(C14, p->status == STATUS_NOT_STARTED, "a call on a not started handle changes its state");
-    VP_ASSERT(C15, reproc_destroy(p) == NULL, "destroy does not return null");
+    reproc_t *d0 = reproc_destroy(p);
+    VP_ASSERT(C15, d0 == NULL, "destroy does not return null");
     VP_ASSERT(C05, vp_table_equals(&snap0) && vp_live_allocs == 0, "never started handle: destroy leaves something behind");
     VP_ASSERT(C14, vp_nchild == 0, "a child exists although the handle was never started");
     VP_COVER(1, "call on a never started handle");
@@ -266,16 +268,19 @@ void harness(void)
    * optionally the status already collected */
   for (int s = 0; s < 3; s++) {
     if (vp_bool()) {
-      VP_ASSERT(C14, reproc_close(p, (REPROC_STREAM) s) == 0, "close fails");
+      int rc = reproc_close(p, (REPROC_STREAM) s);
+      VP_ASSERT(C14, rc == 0, "close fails");
       ref_open[s] = false;
     }
   }
   vp_T += vp_choice(0, 1 << 20);
   int sg = vp_choice(0, 2);
   if (sg == 1) {
-    VP_ASSERT(C14, reproc_terminate(p) == 0, "terminate of a running child fails");
+    int rt = reproc_terminate(p);
+    VP_ASSERT(C14, rt == 0, "terminate of a running child fails");
   } else if (sg == 2) {
-    VP_ASSERT(C14, reproc_kill(p) == 0, "kill of a running child fails");
+    int rk = reproc_kill(p);
+    VP_ASSERT(C14, rk == 0, "kill of a running child fails");
   }
   vp_T += vp_choice(0, 1 << 20);
   if (vp_bool()) {
@@ -307,7 +312,8 @@ void harness(void)
 
   int reaps_before = vp_c_reaps[0];
   bool was_running = ref_state == S_RUNNING;
-  VP_ASSERT(C15, reproc_destroy(p) == NULL, "destroy does not return null");
+  reproc_t *d1 = reproc_destroy(p);
+  VP_ASSERT(C15, d1 == NULL, "destroy does not return null");
   VP_ASSERT(C05, vp_table_equals(&snap0), "descriptors differ after destroy (leak, or a foreign descriptor closed)");
   VP_ASSERT(C05, vp_live_allocs == 0, "memory is not released exactly once");
   VP_ASSERT(C05, vp_c_reaps[0] <= 1, "child reaped more than once");
